@@ -421,6 +421,27 @@ def check_equivalent(base, rw, driver, target="sql.sqlite", k=2, schema=None, ti
         return Outcome("violation", kind="arity", prql=tb, base=ta, sql=rb["sql"], base_sql=ra["sql"],
                        detail=f"base SQL returns {[c.name for c in A.cols]}, rewritten returns {[c.name for c in B.cols]}")
     cmp_ordered = ordered and A.order is not None and B.order is not None
+    if ordered and (A.order is None) != (B.order is None):
+        # one of the two texts has lost its top-level ORDER BY: SQL then leaves the order open; report only if real
+        # SQLite returns the two results in different orders on a concrete instance that satisfies the preconditions
+        for data in concrete_instances(schema):
+            cdb = ConcDB(schema, data)
+            cpre = P.Pre()
+            try:
+                P.Ref(cdb, base, cpre).run()
+            except Unsupported:
+                break
+            if not all(z3.is_true(z3.simplify(c)) for c in cpre.conds):
+                continue
+            try:
+                _, rows_a = run_sqlite(schema, data, ra["sql"])
+                _, rows_b = run_sqlite(schema, data, rb["sql"])
+            except sqlite3.Error:
+                break
+            if not rows_match([(i, r) for i, r in enumerate(rows_a)], rows_b, True):
+                return Outcome("violation", kind="result", prql=tb, base=ta, sql=rb["sql"], base_sql=ra["sql"], data=data, ordered=True,
+                               expected=[list(r) for r in rows_a], actual=[list(r) for r in rows_b],
+                               detail="the rewritten program returns the rows in a different order than the base program (one of the two SQL texts has no top-level ORDER BY)")
     try:
         diff = result_differs(_asref(A), B, cmp_ordered)
     except Unsupported as e:
